@@ -17,8 +17,8 @@ The steps mirror the code (current tree, i.e. after 3229285 — checksums are co
 | `part p`    | `complete_multipart_upload`: open part file (missing → error), `tokio::io::copy`, size rule, `remove_file(part)` |
 | `flush`     | `writer.flush()`                                                                       |
 | `check`     | the four checksum comparisons (`BadDigest`)                                            |
-| `mkdirs`    | `done()`: `create_dir_all(dest.parent())`                                              |
-| `rename`    | `done()`: `fs::rename(tmp, dest)` — POSIX-atomic; then `clean_tmp = false`               |
+| `mkdirs`    | `done()`, first await: `create_dir_all(dest.parent())` — fails when a parent is a plain file; `clean_tmp` is still `true` |
+| `rename`    | `done()`, second await: `fs::rename(tmp, dest)` — POSIX-atomic; fails when `dest` is a directory; only AFTER it succeeded `clean_tmp = false` |
 | `saveMeta`  | `save_metadata` (`fs::write`, not atomic, after the rename)                            |
 | `saveInfo`  | `save_internal_info` (`fs::write`, after the rename)                                   |
 
@@ -54,6 +54,8 @@ structure St where
   partsGone : Nat
   /-- body items pulled so far (observable progress) -/
   pulled : Nat
+  /-- `done()` has run `create_dir_all(dest.parent())` (observable when the parent did not exist before) -/
+  dirs : Bool
   deriving DecidableEq, Repr
 
 inductive Code where
@@ -81,7 +83,7 @@ inductive Step where
   | part (p : Part)
   | flush
   | check (equal : Bool)
-  | mkdirs
+  | mkdirs (fails : Bool)
   | rename (fails : Bool)
   | saveMeta (fails : Bool)
   | saveInfo (fails : Bool)
@@ -102,7 +104,7 @@ def exec (s : St) : Step → Except (Code × St) St
   | .part .missing => .error (.internalError, s)
   | .flush => .ok s
   | .check eq => if eq then .ok s else .error (.badDigest, s)
-  | .mkdirs => .ok s
+  | .mkdirs fails => if fails then .error (.internalError, s) else .ok { s with dirs := true }
   | .rename fails =>
     if fails then .error (.internalError, s)
     else .ok { s with dest := some s.acc, tmp := false, owned := false }
@@ -143,19 +145,22 @@ structure Cfg where
   parts : List Part := []
   checksumsEqual : Bool := true
   hasMeta : Bool := false
+  /-- `create_dir_all` fails (a parent of the destination is a plain file) -/
+  mkdirsFails : Bool := false
+  /-- `rename` fails (the destination is a directory) -/
   renameFails : Bool := false
   metaFails : Bool := false
   infoFails : Bool := false
 
 def putObjectProg (c : Cfg) : List Step :=
-  [.create, .adopt] ++ c.frames.map .frame ++ [.flush, .check c.checksumsEqual, .mkdirs, .rename c.renameFails] ++
+  [.create, .adopt] ++ c.frames.map .frame ++ [.flush, .check c.checksumsEqual, .mkdirs c.mkdirsFails, .rename c.renameFails] ++
     (if c.hasMeta then [.saveMeta c.metaFails] else []) ++ [.saveInfo c.infoFails]
 
 def uploadPartProg (c : Cfg) : List Step :=
-  [.create, .adopt] ++ c.frames.map .frame ++ [.flush, .mkdirs, .rename c.renameFails]
+  [.create, .adopt] ++ c.frames.map .frame ++ [.flush, .mkdirs c.mkdirsFails, .rename c.renameFails]
 
 def completeProg (c : Cfg) : List Step :=
-  [.consume, .moveMeta c.hasMeta c.metaFails, .create, .adopt] ++ c.parts.map .part ++ [.mkdirs, .rename c.renameFails]
+  [.consume, .moveMeta c.hasMeta c.metaFails, .create, .adopt] ++ c.parts.map .part ++ [.mkdirs c.mkdirsFails, .rename c.renameFails]
 
 /-- all body bytes, if no item is an error -/
 def allBytes : List Frame → Option Bytes
@@ -177,7 +182,7 @@ def allParts : List Part → Option Bytes
 /-- initial state: previous content `old` (or none), previous side files -/
 def initSt (old : Option Bytes) (mdata info : Side) : St :=
   { dest := old, tmp := false, owned := false, acc := [], mdata := mdata, info := info, uploadRec := true,
-    partsGone := 0, pulled := 0 }
+    partsGone := 0, pulled := 0, dirs := false }
 
 /-! ## concurrent writers to one key -/
 
